@@ -5,7 +5,7 @@ CONSTANTS
  MaxReinit = 5
  CountCalls = TRUE
  NW <- TrNW  HdrSz <- TrHdrSz  Blocks <- TrBlocks  TailSz <- TrTailSz  TailOk <- TrTailOk  FileLen <- TrFileLen
- Chunk = 16384  Timeout <- TrTimeout  FailFast <- TrFailFast  Spurious = TRUE  MemT = 1000000000
+ Chunk = 16384  Timeout <- TrTimeout  FailFast <- TrFailFast  Spurious = TRUE  MemT <- TrMemT  OutOvh <- TrOutOvh
  Gives = {}  Spaces = {}
 CONSTRAINT TrackMax
 POSTCONDITION TraceAccepted
